@@ -222,6 +222,11 @@ def cache_rules(run, db):
         if isinstance(n, ast.Assign) and isinstance(n.targets[0], ast.Subscript) and isinstance(n.targets[0].value, ast.Attribute) \
                 and ast.unparse(n.targets[0].value.value) == 'self':
             stores.setdefault(n.targets[0].value.attr, []).append(ast.unparse(n.targets[0].slice))
+    # the memos of the forward bases are the dicts _setup_bases fills; further dict attributes (derived caches) are covered by
+    # the generic memo-completeness rule (fresh_rules)
+    memos = [m for m in memos if m in stores]
+    if len(memos) < 2:
+        raise AnalysisError('MatrixDFTExecutor._setup_bases fills fewer than two memo dicts')
     for m in memos:
         run.check(stores.get(m) == ['key'], 'C01.cache', fill.qual, 'store self.%s[key]' % m, 'memo %s filled under the key' % m,
                   'memo %s is not stored exactly once under `key` (stores: %s)' % (m, stores.get(m)), fill.loc())
@@ -235,6 +240,14 @@ def cache_rules(run, db):
             raise AnalysisError('MatrixDFTExecutor.%s not found' % meth)
         kc = [n for n in walk_no_nested(fi.node) if isinstance(n, ast.Call) and ast.unparse(n.func) == 'self._key']
         sc = [n for n in walk_no_nested(fi.node) if isinstance(n, ast.Call) and ast.unparse(n.func) == 'self._setup_bases']
+        if not sc:
+            # the setup may sit in a helper method that receives the key
+            for n in walk_no_nested(fi.node):
+                if isinstance(n, ast.Call) and isinstance(n.func, ast.Attribute) and isinstance(n.func.value, ast.Name) and n.func.value.id == 'self' \
+                        and any(isinstance(a, ast.Name) and a.id == 'key' for a in n.args):
+                    h = db.method(ci, n.func.attr)
+                    if h is not None:
+                        sc += [m for m in walk_no_nested(h.node) if isinstance(m, ast.Call) and ast.unparse(m.func) == 'self._setup_bases']
         ok = len(kc) == 1 and len(sc) == 1
         run.check(ok, 'C01.cache', fi.qual, 'key/setup', 'one key, one setup call', 'key/setup protocol not followed', fi.loc())
         if ok:
